@@ -18,9 +18,21 @@ for f in glob.glob(os.path.join(src, "check_*.txt")):
     txt = open(f).read()
     v = [l for l in txt.splitlines() if l.startswith("VIOLATION")]
     caught[pid] = {"violation_lines": len(v), "first": v[0] if v else None}
+as_stood = {}
+for f in glob.glob(os.path.join(src, "asstood_*.txt")):
+    pid = os.path.basename(f)[8:-4]
+    v = [l for l in open(f).read().splitlines() if l.startswith("VIOLATION")]
+    as_stood[pid] = {"violation_lines": len(v), "first": v[0] if v else None}
+# demos written against the build kit refer to it through ${KIT:-...}: point the default at the stored copy
+dm = os.path.join(dst, "demo.sh")
+if os.path.exists(dm):
+    t = open(dm).read().replace("${KIT:-/tmp/s14_kit}", "${KIT:-/verif/seeded/_kit}").replace("/tmp/s14_kit", "/verif/seeded/_kit")
+    open(dm, "w").write(t)
 oc = open(os.path.join(src, "out_clean.txt")).read()[-300:] if os.path.exists(os.path.join(src, "out_clean.txt")) else ""
 meta = {"breaks_property": prop, "needs_to_manifest": needs,
         "confirmed": "tools/seed_verify.sh: scratch worktree of /repo HEAD; demo.sh exits 0 on the clean tree and non-zero with patch.diff applied; touched files compile (kernels: g++ -c, libawkward: -fsyntax-only); the pinned pytest suite never imports /repo/src so it is unaffected",
         "checks_run": caught}
+if as_stood:
+    meta["checks_as_they_stood_before_this_round"] = as_stood
 json.dump(meta, open(os.path.join(dst, "meta.json"), "w"), indent=1)
 print(dst, caught)
